@@ -74,6 +74,10 @@ OTHER_CHECKS = [
      "TimeConv.tla defines the wire conversion (fraction = ceil(ns*2^32/10^9) by long division on 16-bit limbs, back by Horner's rule, so that TLC's 32-bit integers suffice) and the saturating Add / Sub / New on normalized (sec, ns) values; TLC evaluates them on 31 413 boundary and sampled cases, checks RoundTrip, Normalized and Monotone on them and prints one CASE line per evaluation; the harness evaluates every conversion path (Duration<->rtps Duration, Duration<->wire Time, Time<->transport Time<->wire Time) and every operator (Time+Duration, Duration+-Duration, Time-Time, +=, ::new) of the code on each case, and sweeps ALL 10^9 nanosecond values through the code comparing with TimeConv!Frac and the round trip. TimeConvA.tla states the same functions on unbounded integers and Apalache proves RoundTripInv for every ns and ArithInv (normalized, monotone in every argument) for all operands of the full range.",
      "6 C14", "Trusted: TLC, Apalache/z3, the harness' case evaluation (harness/src/timeconv.rs). The limb definition (TLC) and the integer definition (Apalache) are linked through the implementation, not by a proof. Seconds are sampled at boundary values (they are copied by the conversions).",
      "explicit TLA+ spec; TLC-evaluated cases and an exhaustive nanosecond sweep compared with the code; Apalache proof of the round trip and of monotonicity over the unbounded domain"),
+    ("C42", "model_checking",
+     "StdTimer.tla models std_runtime/timer.rs step by step (Sleep poll: Ready iff now > deadline, every pending poll sends Wake(id, deadline); drop sends Cancel; the timer thread wakes every elapsed heap entry, then receives ONE message waiting at most until the next deadline) with a tick counter; TLC checks NeverEarly, NoEarlyWake, NoLostWakeup (the wake-up token of a pending sleep is always on the heap or in the queue) and NoWakeAfterCancel on all interleavings of 2 sleeps with spurious polls (272 k states); the unconditional 'a dropped sleep never wakes its task' (NoWakeAfterDrop) is shown NOT to hold for this design (must-fail configuration: a Cancel queued just before the deadline loses against the elapsed-entry sweep), so the implementation is judged with a 300 ms margin. Binding: the real TimerDriver / block_on / block_timeout run under 8-16 concurrent threads; per sleep the harness records poll / ready / drop / wake-up times of one monotonic clock (it re-polls only when woken, so a lost wake-up shows up) and TLC validates the trace against Trace_Timer.tla: never Ready before the deadline, every kept sleep completes, a sleep dropped well before its deadline never wakes its task, block_on returns the output, block_timeout returns Timeout never before the duration and not when the future completed a second earlier.",
+     "5.12, 6 C42", "Real-time behaviour: a recorded violation is re-examined by repeating the stress run, not replayed exactly. Liveness bounds are generous (5 s) to stay quiet on a loaded machine (checked with 48 busy loops on 16 cores). The executor's spawn/join are covered only indirectly.",
+     "explicit TLA+ spec + TLC (exhaustive interleavings of the timer thread and sleepers); wall-clock traces of the real timer under concurrent stress validated by TLC against the trace specification"),
     ("C28", "model_checking",
      "WriterInst.tla: one action per DataWriterAsync call (register_instance, unregister_instance, dispose, write, lookup_instance, enable) on a writer created on a keyed or keyless type, enabled or not yet enabled; the abstract state is the set of registered keys; TLC enumerates all histories of <= 6 calls over 2 keys (39 states, 325 transitions) and every transition is replayed on a real writer inside the deterministic simulation: return code, returned handle (= big-endian key padded to 16 bytes) and, after every step, lookup_instance of every key are compared.",
      "6 C28", GRAPH_NOTE + " max_instances/OutOfResources and the handle argument of write/dispose/unregister are outside the model; lookup_instance on a keyless type is not constrained.",
